@@ -512,6 +512,10 @@ P_C03_Quiet(pre, dk, op, ob, ign) ==       \* nothing is reported about ignored 
     => /\ (ob.missing \cup ob.mismatch \cup ob.new) \cap ign = {}
        /\ \A p \in ob.mismatch : IsFile(dk, p) /\ LET o == FirstContent(pre, dk, op.R, p) IN o.f = "none" \/ o.c # dk[p] \/ HasRenames(pre, dk, op.R)
        /\ ob.missing \cap DOMAIN dk = {}
+       \* never a false one: what is reported new was never recorded, what is reported missing was
+       /\ (~HasRenames(pre, dk, op.R) =>
+             /\ \A p \in ob.new : IsFile(dk, p) /\ FirstContent(pre, dk, op.R, p).f = "none"
+             /\ ob.missing \subseteq EverRecorded(pre, dk, op.R))
 
 \* ---- C04 -------------------------------------------------------------------------------
 \* the first recorded digest of path rp in format f
